@@ -10,6 +10,7 @@ pub(crate) fn mk_housekeeper(running: bool, sync_after: Instant) -> Housekeeper 
     Housekeeper { is_sync_running: AtomicBool::new(running), sync_after: AtomicInstant::new(sync_after) }
 }
 pub(crate) fn is_running(h: &Housekeeper) -> bool { h.is_sync_running.load(Ordering::Acquire) }
+pub(crate) fn set_running(h: &Housekeeper, v: bool) { h.is_sync_running.store(v, Ordering::Release) }
 
 struct MockInner { calls: Cell<u32>, repeats: Cell<usize>, now: Instant, flag_seen_during_sync: Cell<bool>, hk: *const Housekeeper }
 impl InnerSync for MockInner {
